@@ -16,6 +16,7 @@ import (
 	"os/exec"
 	"path/filepath"
 	"strings"
+	"sync"
 	"sync/atomic"
 	"syscall"
 	"time"
@@ -34,9 +35,11 @@ func envOr(k, d string) string {
 var seq int64
 var baseDir string
 
-// Base returns the per-process scratch root (created once). RemoveBase deletes it.
+var baseOnce sync.Once
+
+// Base returns the per-process scratch root (created once; safe for concurrent use). RemoveBase deletes it.
 func Base() string {
-	if baseDir == "" {
+	baseOnce.Do(func() {
 		t := os.Getenv("VERIF_TMP")
 		if t == "" {
 			t = os.TempDir()
@@ -46,7 +49,9 @@ func Base() string {
 			panic(err)
 		}
 		baseDir = d
-	}
+		// evid.Finish (which ends the process with os.Exit, so deferred calls do not run) removes it
+		os.Setenv("VERIF_SBX_BASE", d)
+	})
 	return baseDir
 }
 
